@@ -15,13 +15,25 @@ B1  MC_C18_cal / MC_C18_num / MC_C18_tri: TLC enumerates documents of sibling <i
 B2  seeded random documents (wider field ranges, long years, mutated strings, compound selectors)
     are run through the real code, recorded as ndjson and accepted / rejected by TLC with
     spec/Trace_C18.tla (= Trace_Select restricted to documents all of whose elements are gated).
+
+Open finding F18 (known_findings.txt key week53-accepted-when-dec31-in-week1): a failing case gets that key
+only when the observed answer equals the specification evaluated with exactly that one rule switched on
+(B1: Calendar!CalKnownClass, emitted per element; B2: rejected events re-validated with
+spec/Trace_C18_known.cfg, which substitutes CalLenientWeek53 <- TRUE).  Every other disagreement keeps its
+own key.
+
+The TLC runs of a tier go side by side (one reader thread each, one shared pool of replay processes that
+is forked before any thread starts); verdicts are collected and ordered by the main thread, so the
+evidence is deterministic.
 """
 from __future__ import annotations
 import json
 import multiprocessing as mp
 import os
 import random
+import threading
 import warnings
+from concurrent.futures import ThreadPoolExecutor
 
 from harness import common, dom, sel as selmod, tlc, trace
 
@@ -117,27 +129,32 @@ def _work(chunk):
                 if i not in opn:
                     ncmp += 1
         nontriv += len((exp[0] | exp[1]) - opn)
-        if samp is None and exp[1]:
+        if exp[1] and case['b'] <= 4:
             i = min(exp[1])
-            samp = {'selector': ':out-of-range', 'element': el_html(d, i), 'predicted': True,
-                    'doc_elements': n, 'in_range_ids': len(exp[0]), 'out_of_range_ids': len(exp[1])}
+            samp = samp or []
+            samp += [{'batch': case['b'], 'selector': ':out-of-range', 'element': el_html(d, i), 'predicted': True,
+                    'doc_elements': n, 'in_range_ids': len(exp[0]), 'out_of_range_ids': len(exp[1])}]
     return out, ncmp, nontriv, len(chunk), samp
 
 
+POOL_ASTS = [[{'cs': [[{'k': 'in-range'}]], 'cb': []}], [{'cs': [[{'k': 'out-of-range'}]], 'cb': []}]]
+
+
 class Replay:
-    def __init__(self, chk, label, procs=16, chunk=2):
-        self.chk, self.label, self.procs, self.chunk = chk, label, procs, chunk
-        self.mp = None
+    """Streams the documents one TLC run emits into the shared replay pool (the TLC runs of a tier go side by
+    side, each read by its own thread; the worker processes are forked before any thread exists)."""
+
+    def __init__(self, label, shared, chunk=2):
+        self.label, self.mp, self.chunk = label, shared, chunk
+        self.pool_ok = False
         self.pending = []
         self.buf = []
         self.ndocs = 0
         self.nel = 0
-        self.nsamp = 0
 
     def on_line(self, val):
         if 'pool' in val:
-            ctx = mp.get_context('fork')
-            self.mp = ctx.Pool(self.procs, initializer=_init, initargs=(val['pool'],))
+            self.pool_ok = val['pool'] == POOL_ASTS
             return
         if 'doc' not in val:
             return
@@ -148,28 +165,27 @@ class Replay:
             self.flush()
 
     def flush(self):
-        if self.buf and self.mp is not None:
+        if self.buf:
             self.pending.append(self.mp.apply_async(_work, (self.buf,)))
             self.buf = []
 
-    def finish(self):
-        chk = self.chk
+    def finish(self, chk):
         self.flush()
-        if self.mp is None:
-            chk.machinery('%s: TLC emitted no selector pool' % self.label)
+        if not self.pool_ok:
+            chk.machinery('%s: TLC did not emit the selector pool [:in-range, :out-of-range]' % self.label)
             return
-        for p in self.pending:
+        samps, recs = [], []
+        for p in self.pending:          # TLC's workers print in no fixed order: collect, then order
             out, ncmp, nontriv, ndocs, samp = p.get()
-            if samp and self.nsamp < 2:
-                self.nsamp += 1
-                samp['cfg'] = self.label
-                chk.sample(samp, cap=7)
+            samps += samp or []
             chk.count(ncmp, traces=ndocs)
             chk.add_distinct(nontriv)
-            for rec in out:
-                report(chk, self.label, rec)
-        self.mp.close()
-        self.mp.join()
+            recs += out
+        for samp in sorted(samps, key=lambda x: x['batch'])[:2]:
+            samp['cfg'] = self.label
+            chk.sample(samp, cap=7)
+        for rec in sorted(recs, key=lambda r: (r[0], r[6] if len(r) > 6 else '', str(r[3]))):
+            report(chk, self.label, rec)
         if self.ndocs == 0:
             chk.machinery('%s: TLC emitted no documents' % self.label)
 
@@ -204,7 +220,7 @@ def report(chk, label, rec):
 def write_cfg(name, constants, invariants):
     cfgdir = os.path.join('/tmp', 'verif_cfg_c18_%d' % os.getpid())
     os.makedirs(cfgdir, exist_ok=True)
-    path = os.path.join(cfgdir, name)
+    path = os.path.join(cfgdir, ''.join(c if c.isalnum() else '_' for c in name))
     with open(path + '.cfg', 'w') as f:
         if constants:
             f.write('CONSTANTS\n')
@@ -232,34 +248,53 @@ def spec_violation(chk, label, res):
                       {'cfg': label, 'group': 'spec theorem', 'tlc': res.counterexample[:4000]})
 
 
-def run_mc(chk, module, constants, label, timeout=3000):
-    path = write_cfg(label, constants, ('Emit', 'Law'))
-    rp = Replay(chk, label)
-    try:
-        res = tlc.run(module, cfg=path, workers=16, timeout=timeout, line_cb=rp.on_line, keep_stdout=False, heap='3g')
-    finally:
-        drop_cfg(path)
-    spec_violation(chk, label, res)
-    chk.add_tlc(res, label)
-    rp.finish()
-    chk.notes.setdefault('elements', {})[label] = rp.nel
-    return res
-
-
 THEOREMS = ('ThmPeriod', 'ThmJan1', 'ThmYearLen', 'ThmWeeks', 'Thm71', 'ThmStrings', 'ThmShort', 'ThmYearOrder',
             'ThmBigYears', 'ThmAnchors', 'ThmOrder', 'ThmScaled', 'ThmExp', 'ThmZones', 'ThmWrap')
 
 
-def run_theorems(chk, ymax):
-    path = write_cfg('thm', {'YMax': ymax}, THEOREMS)
-    try:
-        res = tlc.run('MC_C18_thm', cfg=path, workers=16, timeout=3000, keep_stdout=False, heap='2g')
-    finally:
-        drop_cfg(path)
-    spec_violation(chk, 'thm', res)
-    chk.add_tlc(res, 'thm(YMax=%d, %d theorems)' % (ymax, len(THEOREMS)))
-    if res.distinct != ymax:
-        chk.machinery('thm: expected %d states, got %d' % (ymax, res.distinct))
+class Job(threading.Thread):
+    """one TLC run (B0 theorems or a B1 configuration), read by its own thread; verdicts are collected by
+    the main thread in finish()"""
+
+    def __init__(self, module, constants, label, invariants, workers, shared=None, expect_states=None):
+        super().__init__(daemon=True)
+        self.module, self.constants, self.label, self.invariants = module, constants, label, invariants
+        self.workers, self.expect_states = workers, expect_states
+        self.rp = Replay(label, shared) if shared is not None else None
+        self.res = None
+        self.err = None
+
+    def run(self):
+        path = write_cfg(self.label, self.constants, self.invariants)
+        try:
+            self.res = tlc.run(self.module, cfg=path, workers=self.workers, timeout=3000, keep_stdout=False,
+                               line_cb=self.rp.on_line if self.rp else None, heap='3g' if self.rp else '2g')
+        except Exception as e:      # TLCError, or anything the reader thread hit: machinery, never a verdict
+            self.err = '%s: %s' % (type(e).__name__, str(e)[-1500:])
+        finally:
+            drop_cfg(path)
+
+    def finish(self, chk):
+        self.join()
+        if self.err:
+            chk.machinery('%s: %s' % (self.label, self.err))
+            return
+        spec_violation(chk, self.label, self.res)
+        chk.add_tlc(self.res, self.label)
+        if self.rp:
+            self.rp.finish(chk)
+            chk.notes.setdefault('elements', {})[self.label] = self.rp.nel
+        if self.expect_states is not None and self.res.distinct != self.expect_states and not self.res.violation:
+            chk.machinery('%s: expected %d states, got %d' % (self.label, self.expect_states, self.res.distinct))
+
+
+def mc_job(shared, module, constants, label, workers):
+    return Job(module, constants, label, ('Emit', 'Law'), workers, shared=shared)
+
+
+def thm_job(ymax, workers):
+    return Job('MC_C18_thm', {'YMax': ymax}, 'thm(YMax=%d, %d theorems)' % (ymax, len(THEOREMS)), THEOREMS, workers,
+               expect_states=ymax)
 
 
 # ---------------------------------------------------------------------------
@@ -455,6 +490,9 @@ def _validate_one(args):
     return res.distinct, res.generated, rej, nopen, err
 
 
+TRACE_JVMS = 6
+
+
 def validate_trace(chk, lines, label, nbatches=16):
     """harness.trace.validate for Trace_C18: same verdicts, and counts the events the trace spec left
     ungated (PrintT(<<"OPEN", id>>)); at most 8 single-worker TLC instances side by side."""
@@ -473,9 +511,8 @@ def validate_trace(chk, lines, label, nbatches=16):
             with open(path, 'w') as f:
                 f.write('\n'.join(lines[b:b + size]) + '\n')
             files.append((path, len(lines[b:b + size])))
-        ctx = mp.get_context('fork')
-        with ctx.Pool(min(8, len(files))) as pool:
-            results = pool.map(_validate_one, files)
+        with ThreadPoolExecutor(max_workers=TRACE_JVMS) as pool:      # each task is one TLC subprocess
+            results = list(pool.map(_validate_one, files))
         for distinct, generated, rej, no, err in results:
             if err:
                 chk.machinery('%s: %s' % (label, err))
@@ -512,18 +549,22 @@ def validate_trace(chk, lines, label, nbatches=16):
     return rejected, nopen
 
 
-def trace_part(chk, tier):
+def trace_record(tier):
+    """run the seeded random events through the real code (forks worker processes: call before any thread)"""
     rng = random.Random(common.SEED * 7919 + 18)
     ndocs, nmax = (260, 8) if tier == 'quick' else (2600, 10)
     jobs = []
     for k in range(ndocs):
         d = rand_c18_doc(rng, nmax)
         jobs.append(('r%d' % k, d, rand_c18_selectors(rng), [0], None))
-    lines = trace.record_select(jobs)
+    return ndocs, trace.record_select(jobs)
+
+
+def trace_validate(chk, ndocs, lines):
     if not lines:
         chk.machinery('trace: no events recorded')
         return
-    rejected, nopen = validate_trace(chk, lines, 'trace-c18', nbatches=16)
+    rejected, nopen = validate_trace(chk, lines, 'trace-c18', nbatches=12)
     nexc = sum(1 for l in lines if '"exc"' in l)
     e = json.loads(lines[0])
     chk.sample({'trace_event': {'css': e['css'], 'res': e['res'], 'nodes': len(e['doc']['parent']),
@@ -531,6 +572,11 @@ def trace_part(chk, tier):
                 'cfg': 'trace-c18'}, cap=8)
     chk.notes['trace'] = {'documents': ndocs, 'events': len(lines), 'events_that_raised': nexc,
                           'rejected': len(rejected), 'events_not_gated': nopen}
+
+
+def trace_part(chk, tier):
+    ndocs, lines = trace_record(tier)
+    trace_validate(chk, ndocs, lines)
 
 
 # ---------------------------------------------------------------------------
@@ -547,23 +593,37 @@ def main(tier):
         'separator, upper-case type keywords in XML documents, inputs without a type attribute (C08 F08); '
         'disagreements there are recorded as drift',
     ]
+    # everything that forks happens first, in the main thread: the replay workers and the trace recording
+    ctx = mp.get_context('fork')
+    shared = ctx.Pool(16, initializer=_init, initargs=(POOL_ASTS,))
     try:
-        if tier == 'quick':
-            run_theorems(chk, 1200)
-            run_mc(chk, 'MC_C18_cal', {'YearLo': 1, 'YearHi': 800, 'Full': 'FALSE', 'BatchSize': 100}, 'cal800')
-            run_mc(chk, 'MC_C18_num', {'Full': 'FALSE', 'BatchSize': 100}, 'num')
-            run_mc(chk, 'MC_C18_tri', {'BatchSize': 100}, 'tri')
-        else:
-            run_theorems(chk, 4000)
-            run_mc(chk, 'MC_C18_cal', {'YearLo': 1, 'YearHi': 800, 'Full': 'TRUE', 'BatchSize': 200}, 'cal800full')
-            run_mc(chk, 'MC_C18_num', {'Full': 'TRUE', 'BatchSize': 200}, 'numfull')
-            run_mc(chk, 'MC_C18_tri', {'BatchSize': 100}, 'tri')
+        ndocs, lines = trace_record(tier)
         typeless_probe(chk)
-        trace_part(chk, tier)
-    except tlc.TLCError as e:
-        chk.machinery(str(e)[-1500:])
+        # the TLC runs go side by side (each has a serial start-up phase), read by one thread each
+        if tier == 'quick':
+            jobs = [mc_job(shared, 'MC_C18_cal', {'YearLo': 1, 'YearHi': 800, 'Full': 'FALSE', 'BatchSize': 100}, 'cal800', 12),
+                    mc_job(shared, 'MC_C18_num', {'Full': 'FALSE', 'BatchSize': 100}, 'num', 4),
+                    mc_job(shared, 'MC_C18_tri', {'BatchSize': 100}, 'tri', 3),
+                    thm_job(1200, 3)]
+        else:
+            jobs = [mc_job(shared, 'MC_C18_cal', {'YearLo': 1, 'YearHi': 800, 'Full': 'TRUE', 'BatchSize': 200}, 'cal800full', 14),
+                    mc_job(shared, 'MC_C18_num', {'Full': 'TRUE', 'BatchSize': 200}, 'numfull', 6),
+                    mc_job(shared, 'MC_C18_tri', {'BatchSize': 100}, 'tri', 3),
+                    thm_job(4000, 4)]
+        for j in jobs:
+            j.start()
+        try:
+            trace_validate(chk, ndocs, lines)
+        except tlc.TLCError as e:
+            chk.machinery(str(e)[-1500:])
+        for j in jobs:
+            j.finish(chk)
+    finally:
+        shared.close()
+        shared.join()
     ndrift = len(chk.drift)
-    kept = [x for x in chk.drift if x is not None]
+    kept = sorted((x for x in chk.drift if x is not None),
+                  key=lambda x: (x['cfg'], x['zone'], x['element'], x['selector']))
     zones = {}
     for x in kept:
         zones.setdefault(x['zone'], []).append(x)
